@@ -161,6 +161,36 @@ def resize_merge_checks(q, rems, failures, stats, rnd, n):
             fail(failures, f"unexpected_{type(e).__name__}", hist, f"resize/merge: {e}", False, q)
 
 
+def tight_resizes(q, rems, failures, stats, rnd, per_size):
+    """manual resize to every legal target (smaller, equal, larger) for EVERY element count up to a nearly full target
+    table, auto_expand off and on: a tight target makes the automatic expansion fire inside the rebuild"""
+    uni = universe(q, rems)
+    for target in range(max(3, q - 2), q + 2):
+        for count in range(0, min(len(uni), 1 << min(q, target))):
+            for auto in (False, True):
+                for _ in range(per_size):
+                    a = QuotientFilter(quotient=q, auto_expand=auto)
+                    ma = set()
+                    for h in rnd.sample(uni, count):
+                        if a.elements_added >= (1 << a._q) - 1 and not auto:
+                            break
+                        a.add_alt(h)
+                        ma.add(h)
+                    if a._q != q or len(ma) >= (1 << target):
+                        continue          # grew on its own / would not fit: resize() refuses, nothing to compare
+                    hist = tuple(("add", h >> (32 - q), h & ((1 << (32 - q)) - 1)) for h in sorted(ma))
+                    stats["steps"] += 1
+                    try:
+                        timed(a.resize, target)
+                        verify_state(a, ma, hist + (("resize", target, int(auto)),), failures, False, target, uni)
+                    except Hang:
+                        fail(failures, "terminates", hist, f"resize({target}) did not return", False, q)
+                    except QuotientFilterError:
+                        pass
+                    except Exception as e:   # noqa: BLE001
+                        fail(failures, f"unexpected_{type(e).__name__}", hist, f"resize({target}): {e}", False, q)
+
+
 def random_walks(q, rems, auto, n_walks, length, failures, stats, rnd, deadline):
     """deep random histories (the breadth-first part cannot reach completely full tables within its budget)"""
     uni = universe(q, rems)
@@ -219,8 +249,13 @@ def run(tier, seed):
     random_walks(4, [0, 1], False, 100 if tier == "quick" else 5000, 40, failures, stats, rnd, wd)
     resize_merge_checks(3, [0, 1, 5], failures, stats, rnd, 200 if tier == "quick" else 3000)
     resize_merge_checks(4, [0, 1], failures, stats, rnd, 100 if tier == "quick" else 1500)
+    tight_resizes(4, [0, 1, 2], failures, stats, rnd, 2 if tier == "quick" else 20)
+    tight_resizes(5, [0, 1], failures, stats, rnd, 2 if tier == "quick" else 20)
+    if tier != "quick":
+        tight_resizes(6, [0, 3], failures, stats, rnd, 10)
     return {"cases": stats["steps"], "states": stats["states"], "failures": failures,
             "bound": f"all layouts reachable in <= {stats['max_depth']} operations, quotient 3 (8 slots), remainder alphabet "
                      f"{'{0,1}' if tier == 'quick' else '{0,1,2}; quotient 4 with {0,1}'}; auto_expand off and on; "
-                     "random resize/merge on reached sets",
+                     "random resize/merge on reached sets; manual resize of quotient 4/5 tables to every legal target at "
+                     "every element count",
             "exhaustive": bool(stats.get("exhausted"))}
